@@ -49,7 +49,7 @@ public:
   void ComputeIIS() override {}
   IIS GetIIS() override;
 
-  bool IsMIP() const override { return true; }
+  bool IsMIP() const override;   // env RECSOLVER_ISMIP (default 1); 0 makes the driver return the basis
   bool IsQCP() const override { return st_.n_quad > 0; }
   void SetInterrupter(mp::Interrupter *) override { rec_fault("extras"); }
   void Solve() override;
@@ -58,6 +58,7 @@ protected:
   pre::ValueMapDbl DualSolution() override;
   void ReportResults() override;
 private:
+  void DumpGraphOnce();
   RecState st_;
 };
 
